@@ -480,6 +480,17 @@ func c11Cases(c *Check) []c11Case {
 		add("linecomment/eof-after-"+classOf(a), []gtok{a}, []string{" // last"})
 		add("linecomment/crlf-after-"+classOf(a), []gtok{a, mkNL(true), mkIdent("b")}, []string{"// c", ""})
 	}
+	// line comments without text, of blanks only, of slashes only: the comment ends at the line break, what follows is code
+	for li, lc := range []string{"//", "// ", "//\t", "///", "////", "//  \t ", "// //", "//*", "///*"} {
+		add(fmt.Sprintf("linecomment/textless/%d/own-line", li), []gtok{mkIdent("p"), mkNL(false), mkNL(false), mkIdent("q"), mkOp("="), mkNum("1"), mkNL(false), mkIdent("r")}, []string{"", lc, "", " ", " ", "", ""})
+		add(fmt.Sprintf("linecomment/textless/%d/after-code", li), []gtok{mkIdent("p"), mkOp("="), mkNum("2"), mkNL(false), mkIdent("q"), mkNL(false), mkNL(false), mkIdent("r")}, []string{" ", " ", " " + lc, "", " " + lc, "", ""})
+		add(fmt.Sprintf("linecomment/textless/%d/crlf", li), []gtok{mkIdent("p"), mkNL(true), mkIdent("q")}, []string{lc, ""})
+		add(fmt.Sprintf("linecomment/textless/%d/eof", li), []gtok{mkIdent("p")}, []string{" " + lc})
+	}
+	// identifiers containing every digit at every place behind the first
+	for d := 0; d <= 9; d++ {
+		add(fmt.Sprintf("ident-digit/%d", d), []gtok{mkIdent(fmt.Sprintf("x%d", d)), mkIdent(fmt.Sprintf("a%db", d)), mkIdent(fmt.Sprintf("_%d%d", d, d)), mkIdent(fmt.Sprintf("n1%d", d)), mkNum(fmt.Sprintf("%d", d)), mkNum(fmt.Sprintf("1%d0", d))}, []string{" ", " ", " ", " ", " "})
+	}
 	// two block comments with code between, comments spanning lines, rows after multi-line tokens
 	multi := []string{"/* one */", "/* a\nb\nc */", "/**/", "/* * / */", "/*\n*/"}
 	for i, m1 := range multi {
